@@ -45,8 +45,10 @@
 static inline int
 bn_cmp(bn_p a, bn_p b)
 __CPROVER_requires(VF_ECBN_R(a) && VF_ECBN_R(b))
-__CPROVER_assigns()
+__CPROVER_assigns(vf_g.cmp)
 __CPROVER_ensures(__CPROVER_return_value == VF_SIGN(vf_bn_val(*a), vf_bn_val(*b)))
+__CPROVER_ensures(vf_n_cmp == __CPROVER_old(vf_n_cmp) + 1u && vf_cmp_a == VF_ID(a) && vf_cmp_b == VF_ID(b) &&
+    vf_cmp_r == __CPROVER_return_value)
 ;
 static inline int
 bn_is_equal(bn_p a, bn_p b)
